@@ -14,7 +14,7 @@ import random
 PROPERTY = "C18"
 LEVEL = "exploration"
 RULE = ("histories of up to 12 (quick) / 50 (thorough) earlier assemblies drawn from valid, failing, internally crashing and hostile "
-        "(mutated) programs, then each of several probes out of 17 (valid with warnings, failing with several errors, .repeat, multi-file, "
+        "(mutated) programs, then each of several probes out of 20 (valid with warnings, failing with several errors, .repeat, multi-file, "
         "include, make_*), compared with the same probe in a fresh process; PYTHONHASHSEED 0-3 (quick) / 0-31 (thorough); "
         "distinct = distinct (history signature, probe) pairs")
 ASSUMPTIONS = ["diagnostic text is not compared (it legitimately contains d<counter> names); severity, identifier and positions are",
@@ -31,6 +31,9 @@ PROBES = [
     ("repeat", [("p.mac", "n = 3\n.repeat n { .word ., 5\n mov #., r1\n }\n.repeat 2 { .repeat 2 { .byte 1 } }\n")]),
     ("multi-file", [("a.mac", "x:: .word y\n mov #z, r0\n z = 5\n"), ("b.mac", "y:: .word x\n z = 7\n .word z\n")]),
     ("include", [("p.mac", ".include \"inc1.mac\"\n.word inc1lab\n.include \"inc2.mac\"\n.include \"inc2.mac\"\n")]),
+    ("include-ctx-a", [("p.mac", ".link 1000\nhostv == 5\n.include \"inc3.mac\"\n.word inc3v\ninc3v = 1\n")]),
+    ("include-ctx-b", [("p.mac", ".link 40000\n.blkb 6\nhostv == 177\n.include \"inc3.mac\"\n.include \"inc3.mac\"\n")]),
+    ("include-ctx-c", [("a.mac", "nop\n.include \"inc3.mac\"\n"), ("b.mac", "hostv:: .word 7\n.include \"inc3.mac\"\n")]),
     ("make", [("p.mac", "make_bin\nmake_raw \"o.raw\"\nmake_wav \"t.wav\", \"NAME\"\n .word 1\n")]),
     ("link-cancel", [("p.mac", "a: nop\n.link 1000+b-a\nb: nop\n .word a, b\n")]),
     ("lazy-sizes", [("p.mac", ".blkb n\n.even\nl1: .ascii \"x\" <c>\n.even\n.word l1\nn = 3\nc = 65.\n. = . + n\n.word .\n")]),
@@ -60,6 +63,9 @@ FAILERS = [
 INC_FILES = {
     "inc1.mac": "inc1lab: .word 1, 2\n  mov #inc1lab, r0\n",
     "inc2.mac": ".once\ninc2v = 5\n .byte inc2v\n .even\n",
+    # content whose meaning depends on where and by whom it is included: '.'-dependent non-linear values, an index operand whose
+    # tree is rearranged while it is encoded, a compound branch operand whose first number is a local label, a name the includer exports
+    "inc3.mac": "inc3: .word ./2, . % 10., inc3 >> 1\n mov tab3+2*2(r1), r0\n br 1+2\n1: nop\n nop\ntab3: .word hostv, 0\n .repeat 2 { .word ./4 }\n",
 }
 
 
@@ -103,7 +109,7 @@ def gen_history(rnd, maxlen, root):
         elif r < 0.6:
             hist.append(["crash", [["h.mac", rnd.choice(CRASHERS)]]])
         elif r < 0.8:
-            hist.append(["hostile", [["h.mac", gen.hostile_text(rnd, files=("inc1.mac", "inc2.mac"))[0]]]])
+            hist.append(["hostile", [["h.mac", gen.hostile_text(rnd, files=("inc1.mac", "inc2.mac", "inc3.mac"))[0]]]])
         else:
             hist.append(["valid-gen", [["h.mac", gen.rand_program_text(rnd, nstmt=rnd.randrange(1, 15), strength=0.2)]]])
     return hist
